@@ -537,3 +537,1068 @@ Proof.
            cbn. split; [exact Hb|]. left. split; [reflexivity | exact He1].
         -- apply Hreg; congruence.
 Qed.
+
+(* ====================================================================================================== *)
+(* ---------- exported theorems: one lex call ---------- *)
+
+(* lex never runs out of fuel *)
+Theorem lex_total m s : exists t s', lex m s = Ok (t, s').
+Proof.
+  destruct (lex_spec m s) as [k [s0 [s1 [gap [body [E _]]]]]]. exists (mk_token k s0 s1), s1. exact E.
+Qed.
+
+(* data[a .. b) *)
+Definition slice (data : bytes) (a b : nat) : bytes := firstn (b - a) (skipn a data).
+
+Lemma skipn_app_exact (pre r : bytes) : skipn (length pre) (pre ++ r) = r.
+Proof. rewrite skipn_app, skipn_all, Nat.sub_diag. reflexivity. Qed.
+
+Lemma slice_app (pre mid post : bytes) : slice (pre ++ mid ++ post) (length pre) (length pre + length mid) = mid.
+Proof.
+  unfold slice. rewrite skipn_app_exact.
+  replace (length pre + length mid - length pre)%nat with (length mid + 0)%nat by lia.
+  rewrite firstn_app_2. cbn [firstn]. apply app_nil_r.
+Qed.
+
+Lemma slice_mid (a b c d : bytes) :
+  slice (a ++ b ++ c ++ d) (length a + length b) (length a + length b + length c) = c.
+Proof. rewrite app_assoc, <- app_length. apply slice_app. Qed.
+
+(* the lexer state s is a cursor into the buffer [data]: the remaining suffix starts at offset l_pos s *)
+Definition at_data (data : bytes) (s : lstate) : Prop :=
+  exists pre, data = pre ++ l_rest s /\ l_pos s = length pre.
+
+Lemma at_data_init data : at_data data (init data).
+Proof. exists []. split; reflexivity. Qed.
+
+Lemma at_data_length data s : at_data data s -> length data = (l_pos s + length (l_rest s))%nat.
+Proof. intros [pre [H1 H2]]. rewrite H1, app_length, H2. reflexivity. Qed.
+
+Lemma at_data_rest data s : at_data data s -> l_rest s = skipn (l_pos s) data.
+Proof. intros [pre [H1 H2]]. rewrite H1, H2, skipn_app_exact. reflexivity. Qed.
+
+(* what one successful lex call did, in terms of the remaining suffix *)
+Lemma lex_call m s t s' : lex m s = Ok (t, s') ->
+  exists gap body,
+    l_rest s = gap ++ body ++ l_rest s' /\ gap_units gap /\
+    tk_start t = (l_pos s + length gap)%nat /\ tk_len t = length body /\
+    l_pos s' = (l_pos s + length gap + length body)%nat /\
+    kind_facts m (tk_kind t) body (l_rest s') /\ (tk_kind t <> TkEndOfFile -> body <> []).
+Proof.
+  intros E. destruct (lex_spec m s) as [k [s0 [s1 [gap [body [E' [[G1 G2] [[B1 B2] [Hg [Hk Hne]]]]]]]]]].
+  rewrite E' in E. inversion E; subst t s'. clear E.
+  exists gap, body. unfold mk_token; cbn [tk_start tk_len tk_kind].
+  split; [rewrite G1, B1; reflexivity|]. split; [exact Hg|]. split; [exact G2|].
+  split; [lia|]. split; [lia|]. split; assumption.
+Qed.
+
+(* the bytes of token t and the bytes that follow it, read off the buffer *)
+Definition token_slice (data : bytes) (t : token) : bytes := slice data (tk_start t) (tk_start t + tk_len t).
+Definition token_after (data : bytes) (t : token) : bytes := skipn (tk_start t + tk_len t) data.
+
+(* the full lexical description of token t (lexed in mode m) in terms of the buffer *)
+Definition token_facts (data : bytes) (m : mode) (t : token) : Prop :=
+  kind_facts m (tk_kind t) (token_slice data t) (token_after data t).
+
+(* One lex call from any cursor into [data], in any mode. *)
+Theorem lex_call_facts data m s t s' : at_data data s -> lex m s = Ok (t, s') ->
+  at_data data s' /\ (l_pos s <= tk_start t)%nat /\ l_pos s' = (tk_start t + tk_len t)%nat /\
+  (l_pos s' <= length data)%nat /\
+  gap_units (slice data (l_pos s) (tk_start t)) /\ token_facts data m t.
+Proof.
+  intros [pre [D P]] E.
+  destruct (lex_call m s t s' E) as [gap [body [Hr [Hg [Hs [Hl [Hp [Hk _]]]]]]]].
+  assert (D' : data = pre ++ gap ++ body ++ l_rest s') by (rewrite D, Hr; reflexivity).
+  split.
+  { exists (pre ++ gap ++ body). split.
+    - rewrite D'. rewrite <- !app_assoc. reflexivity.
+    - rewrite Hp, P, !app_length. lia. }
+  split; [lia|]. split; [lia|]. split.
+  { rewrite D', !app_length. lia. }
+  split.
+  - rewrite Hs, P, D'. rewrite slice_app. exact Hg.
+  - unfold token_facts, token_slice, token_after. rewrite Hs, Hl, P, D'. rewrite slice_mid.
+    replace (length pre + length gap + length body)%nat with (length (pre ++ gap ++ body)) by (rewrite !app_length; lia).
+    replace (pre ++ gap ++ body ++ l_rest s') with ((pre ++ gap ++ body) ++ l_rest s') by (rewrite <- !app_assoc; reflexivity).
+    rewrite skipn_app_exact. exact Hk.
+Qed.
+
+(* lex_progress: a lex call either reports EndOfFile with the cursor at the very end of the buffer (and leaves the
+   cursor there), or produces a non-empty token and moves the cursor strictly forward. *)
+Theorem lex_progress data m s t s' : at_data data s -> lex m s = Ok (t, s') ->
+  (tk_kind t = TkEndOfFile /\ tk_len t = 0%nat /\ tk_start t = length data /\ l_pos s' = length data /\ l_rest s' = []) \/
+  (tk_kind t <> TkEndOfFile /\ (0 < tk_len t)%nat /\ (l_pos s < l_pos s')%nat /\ (l_pos s' <= length data)%nat).
+Proof.
+  intros A E. pose proof (at_data_length data s A) as L.
+  destruct (lex_call m s t s' E) as [gap [body [Hr [Hg [Hs [Hl [Hp [Hk Hne]]]]]]]].
+  rewrite Hr, !app_length in L.
+  destruct (tk_kind t) eqn:K;
+    try (right; split; [discriminate|]; assert (Hb : body <> []) by (apply Hne; discriminate);
+         destruct body as [|b0 body']; [congruence|]; cbn [length] in *; lia).
+  left. cbn in Hk. destruct Hk as [Hb Hre]. subst body. rewrite Hre in *. cbn [length] in *.
+  split; [reflexivity|]. split; [exact Hl|]. split; [lia|]. split; [lia | reflexivity].
+Qed.
+
+(* end-of-file is reported only at the true end of the buffer, and exactly there *)
+Theorem lex_eof_iff_at_end data m s t s' : at_data data s -> lex m s = Ok (t, s') ->
+  (tk_kind t = TkEndOfFile <-> tk_start t = length data).
+Proof.
+  intros A E. destruct (lex_progress data m s t s' A E) as [[K [L [S _]]]|[K [L [P B]]]].
+  - tauto.
+  - split; [congruence|]. intros S.
+    destruct (lex_call_facts data m s t s' A E) as [_ [_ [Q _]]]. lia.
+Qed.
+
+(* ---------- token streams ---------- *)
+
+(* internal: the tokens [toks] were lexed in the modes [modes] from offset pos, where the remaining suffix is r;
+   afterwards the cursor is at pos_e with remaining suffix r_e *)
+Inductive stream_spec : list mode -> nat -> bytes -> list token -> nat -> bytes -> Prop :=
+| ss_nil pos r : stream_spec [] pos r [] pos r
+| ss_cons m ms pos gap body r' t ts pos_e r_e :
+    gap_units gap -> tk_start t = (pos + length gap)%nat -> tk_len t = length body ->
+    kind_facts m (tk_kind t) body r' -> (tk_kind t <> TkEndOfFile -> body <> []) ->
+    stream_spec ms (pos + length gap + length body)%nat r' ts pos_e r_e ->
+    stream_spec (m :: ms) pos (gap ++ body ++ r') (t :: ts) pos_e r_e.
+
+Lemma lex_stream_from_spec modes : forall s, exists toks s_e,
+  lex_stream_from modes s = Ok toks /\ stream_spec modes (l_pos s) (l_rest s) toks (l_pos s_e) (l_rest s_e).
+Proof.
+  induction modes as [|m ms IH]; intros s.
+  - exists [], s. split; [reflexivity | constructor].
+  - destruct (lex_total m s) as [t [s' E]].
+    destruct (lex_call m s t s' E) as [gap [body [Hr [Hg [Hs [Hl [Hp [Hk Hne]]]]]]]].
+    destruct (IH s') as [ts [s_e [E2 SS]]].
+    exists (t :: ts), s_e. split.
+    + cbn [lex_stream_from]. rewrite E, E2. reflexivity.
+    + rewrite Hr. rewrite Hp in SS. econstructor; eassumption.
+Qed.
+
+(* Tokens in order: each starts at or after the end of its predecessor (the first: at or after pos), ends inside
+   the buffer, and the bytes skipped in between form a gap (non-newline spaces and "$"-newline continuations). *)
+Fixpoint tok_chain (data : bytes) (pos : nat) (toks : list token) : Prop :=
+  match toks with
+  | [] => True
+  | t :: ts =>
+    (pos <= tk_start t)%nat /\ (tk_start t + tk_len t <= length data)%nat /\
+    gap_units (slice data pos (tk_start t)) /\ tok_chain data (tk_start t + tk_len t) ts
+  end.
+
+(* the offset just behind the last token *)
+Fixpoint toks_end (pos : nat) (toks : list token) : nat :=
+  match toks with [] => pos | t :: ts => toks_end (tk_start t + tk_len t)%nat ts end.
+
+(* the skipped bytes and the token bytes, concatenated in order *)
+Fixpoint rebuild (data : bytes) (pos : nat) (toks : list token) : bytes :=
+  match toks with
+  | [] => []
+  | t :: ts => slice data pos (tk_start t) ++ token_slice data t ++ rebuild data (tk_start t + tk_len t)%nat ts
+  end.
+
+Definition eof_shape (data : bytes) (t : token) : Prop :=
+  (tk_kind t = TkEndOfFile -> tk_start t = length data /\ tk_len t = 0%nat) /\
+  (tk_kind t <> TkEndOfFile -> (0 < tk_len t)%nat).
+
+Lemma stream_data modes pos r toks pos_e r_e : stream_spec modes pos r toks pos_e r_e ->
+  forall pre, length pre = pos ->
+    tok_chain (pre ++ r) pos toks /\ Forall2 (token_facts (pre ++ r)) modes toks /\
+    Forall (eof_shape (pre ++ r)) toks /\ toks_end pos toks = pos_e /\
+    r = rebuild (pre ++ r) pos toks ++ r_e /\ pos_e = (pos + length (rebuild (pre ++ r) pos toks))%nat.
+Proof.
+  induction 1 as [pos r | m ms pos gap body r' t ts pos_e r_e Hg Hs Hl Hk Hne SS IH]; intros pre P.
+  - cbn. split; [exact I|]. split; [constructor|]. split; [constructor|]. split; [reflexivity|]. split; [reflexivity | lia].
+  - set (data := pre ++ gap ++ body ++ r').
+    assert (D2 : data = (pre ++ gap ++ body) ++ r') by (unfold data; rewrite <- !app_assoc; reflexivity).
+    assert (P2 : length (pre ++ gap ++ body) = (pos + length gap + length body)%nat) by (rewrite !app_length; lia).
+    destruct (IH _ P2) as [I1 [I2 [I3 [I4 [I5 I6]]]]]. rewrite <- D2 in I1, I2, I3, I5, I6.
+    assert (Sg : slice data pos (tk_start t) = gap).
+    { rewrite Hs, <- P. unfold data. apply slice_app. }
+    assert (Sb : token_slice data t = body).
+    { unfold token_slice. rewrite Hs, Hl, <- P. unfold data. apply slice_mid. }
+    assert (Sa : token_after data t = r').
+    { unfold token_after. rewrite Hs, Hl, <- P2, D2. apply skipn_app_exact. }
+    assert (Le : (tk_start t + tk_len t)%nat = (pos + length gap + length body)%nat) by lia.
+    assert (Ld : length data = (pos + length gap + length body + length r')%nat).
+    { unfold data. rewrite !app_length. lia. }
+    split; [|split; [|split; [|split; [|split]]]].
+    + cbn [tok_chain]. split; [lia|]. split; [lia|]. split; [rewrite Sg; exact Hg|]. rewrite Le. exact I1.
+    + constructor; [|exact I2]. unfold token_facts. rewrite Sb, Sa. exact Hk.
+    + constructor; [|exact I3]. split.
+      * intros K. rewrite K in Hk. cbn in Hk. destruct Hk as [Hb Hr']. subst body r'. cbn [length] in *. lia.
+      * intros K. specialize (Hne K). destruct body; [congruence | cbn [length] in *; lia].
+    + cbn [toks_end]. rewrite Le. exact I4.
+    + cbn [rebuild]. rewrite Sg, Sb, Le. rewrite <- !app_assoc. rewrite <- I5. reflexivity.
+    + cbn [rebuild]. rewrite Sg, Sb, Le, !app_length. lia.
+Qed.
+
+(* every byte the stream went over lies in a gap or in the body of one of the tokens *)
+Lemma gap_units_bytes c : gap_units c -> Forall (fun b => is_nn_space b = true \/ b = 36 \/ b = 10 \/ b = 13) c.
+Proof.
+  induction 1 as [|b r Hb _ IH|r _ IH|r _ IH|r _ IH].
+  - constructor.
+  - constructor; [left; exact Hb | exact IH].
+  - constructor; [auto|]. constructor; [auto | exact IH].
+  - constructor; [auto|]. constructor; [auto|]. constructor; [auto | exact IH].
+  - constructor; [auto|]. constructor; [auto|]. constructor; [auto | exact IH].
+Qed.
+
+Lemma stream_index modes pos r toks pos_e r_e : stream_spec modes pos r toks pos_e r_e ->
+  forall j b, nth_error r j = Some b -> (pos + j < pos_e)%nat ->
+    (is_nn_space b = true \/ b = 36 \/ b = 10 \/ b = 13) \/
+    exists m t body rest' off, In (m, t) (combine modes toks) /\ kind_facts m (tk_kind t) body rest' /\
+       nth_error body off = Some b /\ (tk_start t + off = pos + j)%nat /\ tk_len t = length body.
+Proof.
+  induction 1 as [pos r | m ms pos gap body r' t ts pos_e r_e Hg Hs Hl Hk Hne SS IH]; intros j b Hn Hj.
+  - lia.
+  - destruct (Nat.lt_ge_cases j (length gap)) as [L1|L1].
+    + left. rewrite nth_error_app1 in Hn by exact L1. apply nth_error_In in Hn.
+      pose proof (gap_units_bytes gap Hg) as F. rewrite Forall_forall in F. apply F. exact Hn.
+    + rewrite nth_error_app2 in Hn by exact L1.
+      destruct (Nat.lt_ge_cases (j - length gap) (length body)) as [L2|L2].
+      * right. rewrite nth_error_app1 in Hn by exact L2.
+        exists m, t, body, r', (j - length gap)%nat. split; [left; reflexivity|]. split; [exact Hk|].
+        split; [exact Hn|]. split; [lia | exact Hl].
+      * rewrite nth_error_app2 in Hn by exact L2.
+        destruct (IH _ _ Hn) as [G|[m' [t' [body' [rest' [off [Hi Hrest]]]]]]]; [lia | left; exact G|].
+        right. exists m', t', body', rest', off. split; [right; exact Hi|].
+        destruct Hrest as [Q1 [Q2 [Q3 Q4]]]. split; [exact Q1|]. split; [exact Q2|]. split; [lia | exact Q4].
+Qed.
+
+(* ---------- lex_stream: an adversarial mode sequence ---------- *)
+
+Theorem lex_stream_total modes data : exists toks, lex_stream modes data = Ok toks.
+Proof. destruct (lex_stream_from_spec modes (init data)) as [toks [s_e [E _]]]. exists toks. exact E. Qed.
+
+Lemma lex_stream_spec modes data toks : lex_stream modes data = Ok toks ->
+  exists pos_e r_e, stream_spec modes 0 data toks pos_e r_e.
+Proof.
+  intros E. destruct (lex_stream_from_spec modes (init data)) as [toks' [s_e [E' SS]]].
+  unfold lex_stream in E. rewrite E' in E. inversion E; subst toks'. eauto.
+Qed.
+
+Theorem lex_stream_length modes data toks : lex_stream modes data = Ok toks -> length toks = length modes.
+Proof.
+  intros E. destruct (lex_stream_spec modes data toks E) as [pe [re SS]]. clear E.
+  induction SS; cbn [length]; congruence.
+Qed.
+
+(* in bounds, ordered, gaps blank - for every mode sequence and every byte string *)
+Theorem lex_stream_chain modes data toks : lex_stream modes data = Ok toks -> tok_chain data 0 toks.
+Proof.
+  intros E. destruct (lex_stream_spec modes data toks E) as [pe [re SS]].
+  destruct (stream_data _ _ _ _ _ _ SS [] eq_refl) as [H _]. exact H.
+Qed.
+
+Theorem lex_stream_token_facts modes data toks : lex_stream modes data = Ok toks ->
+  Forall2 (token_facts data) modes toks.
+Proof.
+  intros E. destruct (lex_stream_spec modes data toks E) as [pe [re SS]].
+  destruct (stream_data _ _ _ _ _ _ SS [] eq_refl) as [_ [H _]]. exact H.
+Qed.
+
+(* the bytes the calls went over are exactly the skipped gaps and the token bodies, in order: no byte is lost
+   or duplicated *)
+Theorem lex_stream_tiles modes data toks : lex_stream modes data = Ok toks ->
+  data = rebuild data 0 toks ++ skipn (toks_end 0 toks) data /\ toks_end 0 toks = length (rebuild data 0 toks).
+Proof.
+  intros E. destruct (lex_stream_spec modes data toks E) as [pe [re SS]].
+  destruct (stream_data _ _ _ _ _ _ SS [] eq_refl) as [_ [_ [_ [H4 [H5 H6]]]]]. cbn [app] in *.
+  rewrite H4. cbn [Nat.add] in H6. split; [|exact H6].
+  rewrite H6. remember (rebuild data 0 toks) as c eqn:Hc. clear Hc E SS.
+  rewrite H5 at 2. rewrite skipn_app_exact. exact H5.
+Qed.
+
+Theorem lex_in_bounds modes data toks t : lex_stream modes data = Ok toks -> In t toks ->
+  (tk_start t + tk_len t <= length data)%nat.
+Proof.
+  intros E. pose proof (lex_stream_chain modes data toks E) as C. clear E. revert C. generalize 0%nat.
+  induction toks as [|t0 ts IH]; intros pos C Hin; [destruct Hin|].
+  cbn [tok_chain] in C. destruct C as [_ [B [_ C]]]. destruct Hin as [->|Hin]; [exact B | exact (IH _ C Hin)].
+Qed.
+
+Lemma tok_chain_app data l1 : forall pos l2, tok_chain data pos (l1 ++ l2) -> tok_chain data (toks_end pos l1) l2.
+Proof.
+  induction l1 as [|t l1 IH]; intros pos l2 C; [exact C|].
+  cbn [app tok_chain toks_end] in *. destruct C as [_ [_ [_ C]]]. exact (IH _ _ C).
+Qed.
+
+Lemma toks_end_snoc l1 : forall pos t, toks_end pos (l1 ++ [t]) = (tk_start t + tk_len t)%nat.
+Proof. induction l1 as [|t0 l1 IH]; intros pos t; [reflexivity|]. cbn [app toks_end]. apply IH. Qed.
+
+(* consecutive tokens do not overlap, and what lies between them is a gap *)
+Theorem lex_tokens_ordered modes data l1 t1 t2 l2 : lex_stream modes data = Ok (l1 ++ t1 :: t2 :: l2) ->
+  (tk_start t1 + tk_len t1 <= tk_start t2)%nat /\ gap_units (slice data (tk_start t1 + tk_len t1) (tk_start t2)).
+Proof.
+  intros E. pose proof (lex_stream_chain _ _ _ E) as C.
+  replace (l1 ++ t1 :: t2 :: l2) with ((l1 ++ [t1]) ++ t2 :: l2) in C by (rewrite <- app_assoc; reflexivity).
+  apply tok_chain_app in C. rewrite toks_end_snoc in C. cbn [tok_chain] in C. tauto.
+Qed.
+
+(* the bytes before the first token are a gap as well *)
+Theorem lex_first_gap modes data t ts : lex_stream modes data = Ok (t :: ts) -> gap_units (slice data 0 (tk_start t)).
+Proof. intros E. pose proof (lex_stream_chain _ _ _ E) as C. cbn [tok_chain] in C. tauto. Qed.
+
+(* the exact set of bytes a gap is made of *)
+Theorem gap_units_inv c : gap_units c ->
+  c = [] \/ (exists b r, c = b :: r /\ is_nn_space b = true /\ gap_units r) \/
+  (exists r, c = 36 :: 10 :: r /\ gap_units r) \/ (exists r, c = 36 :: 10 :: 13 :: r /\ gap_units r) \/
+  (exists r, c = 36 :: 13 :: 10 :: r /\ gap_units r).
+Proof. intros H. inversion H; subst; eauto 10. Qed.
+
+Theorem lex_eof_only_at_end modes data toks t : lex_stream modes data = Ok toks -> In t toks ->
+  (tk_kind t = TkEndOfFile -> tk_start t = length data /\ tk_len t = 0%nat) /\
+  (tk_kind t <> TkEndOfFile -> (0 < tk_len t)%nat).
+Proof.
+  intros E Hin. destruct (lex_stream_spec modes data toks E) as [pe [re SS]].
+  destruct (stream_data _ _ _ _ _ _ SS [] eq_refl) as [_ [_ [H _]]]. cbn [app] in H.
+  rewrite Forall_forall in H. exact (H t Hin).
+Qed.
+
+(* ---------- lex_all: constant mode until EndOfFile ---------- *)
+
+(* the last token is EndOfFile, no other is *)
+Fixpoint eof_last (toks : list token) : Prop :=
+  match toks with
+  | [] => False
+  | t :: ts => match ts with
+               | [] => tk_kind t = TkEndOfFile
+               | _ :: _ => tk_kind t <> TkEndOfFile /\ eof_last ts
+               end
+  end.
+
+Lemma is_eof_iff k : is_eof k = true <-> k = TkEndOfFile.
+Proof. destruct k; cbn; split; intros H; congruence. Qed.
+
+Lemma lex_all_from_spec m fuel : forall s, (length (l_rest s) < fuel)%nat ->
+  exists toks, lex_all_from fuel m s = Ok toks /\ lex_stream_from (repeat m (length toks)) s = Ok toks /\ eof_last toks.
+Proof.
+  induction fuel as [|f IH]; intros s Hf; [lia|].
+  destruct (lex_total m s) as [t [s' E]]. cbn [lex_all_from]. rewrite E.
+  destruct (is_eof (tk_kind t)) eqn:Ee.
+  - exists [t]. split; [reflexivity|]. split.
+    + cbn [length repeat lex_stream_from]. rewrite E. reflexivity.
+    + cbn. apply is_eof_iff. exact Ee.
+  - assert (K : tk_kind t <> TkEndOfFile). { intros K. apply is_eof_iff in K. congruence. }
+    destruct (lex_call m s t s' E) as [gap [body [Hr [_ [_ [_ [_ [_ Hne]]]]]]]].
+    specialize (Hne K).
+    destruct (IH s') as [ts [E1 [E2 E3]]].
+    { rewrite Hr, !app_length in Hf. destruct body; [congruence|]. cbn [length] in Hf. lia. }
+    rewrite E1. exists (t :: ts). split; [reflexivity|]. split.
+    + cbn [length repeat lex_stream_from]. rewrite E, E2. reflexivity.
+    + cbn [eof_last]. destruct ts as [|t2 ts2]; [destruct E3|]. split; assumption.
+Qed.
+
+(* lex_all_total: for ALL byte strings and all modes the fuel suffices *)
+Theorem lex_all_total m data : exists toks, lex_all m data = Ok toks.
+Proof.
+  destruct (lex_all_from_spec m (S (length data)) (init data)) as [toks [E _]]; [cbn; lia|]. exists toks. exact E.
+Qed.
+
+(* lex_all is the lex_stream of a constant mode sequence (so every lex_stream theorem applies to it), and it stops
+   at the first EndOfFile *)
+Theorem lex_all_stream m data toks : lex_all m data = Ok toks ->
+  lex_stream (repeat m (length toks)) data = Ok toks /\ eof_last toks.
+Proof.
+  intros E. destruct (lex_all_from_spec m (S (length data)) (init data)) as [toks' [E' H]]; [cbn; lia|].
+  unfold lex_all in E. rewrite E' in E. inversion E; subst toks'. exact H.
+Qed.
+
+Lemma stream_eof_last modes pos r toks pos_e r_e : stream_spec modes pos r toks pos_e r_e -> eof_last toks -> r_e = [].
+Proof.
+  induction 1 as [pos r | m ms pos gap body r' t ts pos_e r_e Hg Hs Hl Hk Hne SS IH]; intros L; [destruct L|].
+  cbn [eof_last] in L. destruct ts as [|t2 ts2].
+  - inversion SS; subst. rewrite L in Hk. cbn in Hk. tauto.
+  - apply IH. tauto.
+Qed.
+
+(* the tokens of lex_all tile the whole input: gaps and token bodies concatenated give back the buffer, and the
+   last token ends at length data *)
+Theorem lex_all_tiles m data toks : lex_all m data = Ok toks ->
+  rebuild data 0 toks = data /\ toks_end 0 toks = length data /\ tok_chain data 0 toks.
+Proof.
+  intros E. destruct (lex_all_stream m data toks E) as [E1 L].
+  destruct (lex_stream_spec _ data toks E1) as [pe [re SS]].
+  pose proof (stream_eof_last _ _ _ _ _ _ SS L) as Hre. subst re.
+  destruct (stream_data _ _ _ _ _ _ SS [] eq_refl) as [H1 [_ [_ [H4 [H5 H6]]]]]. cbn [app] in *.
+  rewrite app_nil_r in H5. split; [symmetry; exact H5|]. split; [|exact H1].
+  rewrite H4, H6. cbn. rewrite <- H5. reflexivity.
+Qed.
+
+(* ---------- bytes 0x80..0xFF are ordinary characters ---------- *)
+
+(* a byte >= 128 is never end-of-input (peek answers Some), never a space or newline, never an identifier char *)
+Theorem high_byte_classes b : 128 <= b ->
+  is_space b = false /\ is_nn_space b = false /\ is_nl b = false /\
+  is_ident_char b = false /\ is_simple_ident_char b = false /\
+  forall r pos line col, peek (mkL (b :: r) pos line col) = Some b /\
+                         fst (getc (mkL (b :: r) pos line col)) = Some b.
+Proof.
+  intros H. split; [apply high_not_space; exact H|]. split; [apply high_not_nn_space; exact H|].
+  split; [apply high_not_nl; exact H|]. split; [apply high_not_ident; exact H|].
+  split; [apply high_not_simple_ident; exact H|]. intros r pos line col. split; [reflexivity|].
+  rewrite getc_plain by (apply high_not_nl; exact H). reflexivity.
+Qed.
+
+Lemma high_ws_loop b r pos line col f : 128 <= b ->
+  ws_loop (S f) (mkL (b :: r) pos line col) = Ok (mkL (b :: r) pos line col).
+Proof.
+  intros H. cbn [ws_loop peek l_rest l_col].
+  replace (b =? 36) with false by (symmetry; apply N.eqb_neq; lia). cbn [andb].
+  rewrite (high_not_nn_space b H). reflexivity.
+Qed.
+
+(* In the modes without strings a byte >= 128 at the cursor is lexed as an Unknown token of length 1. *)
+Theorem lex_high_byte_regular m (b : byte) (r : bytes) pos line col : 128 <= b -> regular_mode m ->
+  lex m (mkL (b :: r) pos line col) = Ok (mkTok TkUnknown pos 1 line col, mkL r (S pos) line (col + 1)).
+Proof.
+  intros H Hm. unfold lex. cbn [peek l_rest opt_test l_col].
+  rewrite (high_not_nn_space b H). cbn [andb].
+  rewrite high_ws_loop by exact H. cbn [peek l_rest]. rewrite (high_not_nl b H).
+  assert (R : lex_regular m (S (length (b :: r))) (mkL (b :: r) pos line col) b =
+              Ok (mkTok TkUnknown pos 1 line col, mkL r (S pos) line (col + 1))).
+  { unfold lex_regular. rewrite skipc_plain by (apply high_not_nl; exact H).
+    replace (b =? 58) with false by (symmetry; apply N.eqb_neq; lia).
+    replace (b =? 61) with false by (symmetry; apply N.eqb_neq; lia).
+    replace (b =? 35) with false by (symmetry; apply N.eqb_neq; lia).
+    replace (b =? 124) with false by (symmetry; apply N.eqb_neq; lia).
+    rewrite (high_not_ident b H). unfold mk_token. cbn [l_pos l_line l_col].
+    replace (S pos - pos)%nat with 1%nat by lia. reflexivity. }
+  destruct Hm as [->| ->]; exact R.
+Qed.
+
+(* In the string modes a byte >= 128 at the cursor starts a String token that contains it. *)
+Theorem lex_high_byte_string m (b : byte) (r : bytes) pos line col : 128 <= b -> m = MPathString \/ m = MVariableString ->
+  exists n s', lex m (mkL (b :: r) pos line col) = Ok (mkTok TkString pos (S n) line col, s').
+Proof.
+  intros H Hm.
+  unfold lex. cbn [peek l_rest opt_test l_col].
+  rewrite (high_not_nn_space b H). cbn [andb].
+  rewrite high_ws_loop by exact H. cbn [peek l_rest]. rewrite (high_not_nl b H).
+  replace (b =? 58) with false by (symmetry; apply N.eqb_neq; lia).
+  replace (b =? 124) with false by (symmetry; apply N.eqb_neq; lia). cbn [negb andb].
+  assert (Hlen : forall s1 body, adv (mkL (b :: r) pos line col) s1 body -> body <> [] ->
+            exists n, mk_token TkString (mkL (b :: r) pos line col) s1 = mkTok TkString pos (S n) line col).
+  { intros s1 body [A1 A2] Hb. destruct body as [|b0 body']; [congruence|].
+    exists (length body'). unfold mk_token. rewrite A2. cbn [l_pos l_line l_col length]. f_equal. lia. }
+  destruct Hm as [->| ->].
+  - match goal with |- context [path_loop ?f ?x] =>
+      destruct (path_loop_spec f x) as [s1 [body [E1 [A1 [_ Hne]]]]]; [cbn [l_rest length]; apply Nat.lt_succ_diag_r|] end.
+    rewrite E1.
+    destruct (Hlen s1 body A1) as [n Hn].
+    { apply (Hne b r eq_refl). right. unfold path_stop. rewrite (high_not_space b H).
+      replace (b =? 58) with false by (symmetry; apply N.eqb_neq; lia).
+      replace (b =? 124) with false by (symmetry; apply N.eqb_neq; lia). reflexivity. }
+    exists n, s1. apply f_equal. apply (f_equal (fun t => (t, s1))). exact Hn.
+  - match goal with |- context [var_loop ?f ?x] =>
+      destruct (var_loop_spec f x) as [s1 [body [E1 [A1 [_ Hne]]]]]; [cbn [l_rest length]; apply Nat.lt_succ_diag_r|] end.
+    rewrite E1.
+    destruct (Hlen s1 body A1) as [n Hn].
+    { apply (Hne b r eq_refl). apply high_not_nl. exact H. }
+    exists n, s1. apply f_equal. apply (f_equal (fun t => (t, s1))). exact Hn.
+Qed.
+
+(* which tokens can contain a byte >= 128 *)
+Lemma kind_facts_high m k body rest' b off :
+  kind_facts m k body rest' -> nth_error body off = Some b -> 128 <= b ->
+  (k = TkString /\ (m = MPathString \/ m = MVariableString)) \/
+  (k = TkComment /\ regular_mode m /\ (0 < off)%nat) \/
+  (k = TkUnknown /\ regular_mode m /\ body = [b] /\ off = 0%nat).
+Proof.
+  intros Hk Hn Hb.
+  assert (Hin : In b body) by (eapply nth_error_In; exact Hn).
+  assert (Hid : Forall (fun x => is_ident_char x = true) body -> False).
+  { intros F. rewrite Forall_forall in F. specialize (F b Hin). rewrite (high_not_ident b Hb) in F. discriminate. }
+  assert (Hone : forall x, body = [x] -> x < 128 -> False).
+  { intros x -> Hx. destruct Hin as [<-|[]]. lia. }
+  destruct k; cbn [kind_facts] in Hk.
+  - (* Colon *) exfalso. destruct Hk as [Hk _]. apply (Hone 58 Hk). lia.
+  - (* Comment *) destruct Hk as [c [Hc [_ [_ Hr]]]]. right. left. split; [reflexivity|]. split; [exact Hr|].
+    destruct off as [|off']; [|lia]. subst body. cbn in Hn. inversion Hn. lia.
+  - (* EndOfFile *) destruct Hk as [-> _]. destruct Hin.
+  - (* Equals *) exfalso. destruct Hk as [Hk _]. apply (Hone 61 Hk). lia.
+  - (* Indentation *) exfalso. destruct Hk as [_ [F _]]. rewrite Forall_forall in F. specialize (F b Hin).
+    rewrite (high_not_nn_space b Hb) in F. discriminate.
+  - exfalso. apply Hid. tauto.
+  - exfalso. apply Hid. tauto.
+  - exfalso. apply Hid. tauto.
+  - exfalso. apply Hid. tauto.
+  - exfalso. apply Hid. tauto.
+  - exfalso. apply Hid. tauto.
+  - exfalso. apply Hid. tauto.
+  - (* Newline *) exfalso.
+    destruct Hk as [-> |[-> |[-> | -> ]]]; cbn in Hin; repeat (destruct Hin as [<-|Hin]; [lia|]); destruct Hin.
+  - (* Pipe *) exfalso. destruct Hk as [Hk _]. apply (Hone 124 Hk). lia.
+  - (* PipePipe *) exfalso. destruct Hk as [-> _]. cbn in Hin. repeat (destruct Hin as [<-|Hin]; [lia|]). destruct Hin.
+  - (* String *) left. split; [reflexivity|]. destruct Hk as [_ [[-> _]|[-> _]]]; auto.
+  - (* Unknown *) right. right. destruct Hk as [x [Hx [_ [_ [_ [_ [_ [_ [_ Hr]]]]]]]]].
+    split; [reflexivity|]. split; [exact Hr|]. subst body. destruct Hin as [->|[]].
+    split; [reflexivity|]. destruct off as [|off']; [reflexivity|]. cbn in Hn. destruct off'; discriminate.
+Qed.
+
+(* lex_high_bytes_ordinary, stream form: whatever the mode sequence, a byte >= 128 that the calls went over lies
+   inside a String token (string modes), or is an Unknown token of length 1 on its own, or lies inside a comment
+   (modes without strings).  It is never part of a gap, a keyword, an identifier, a newline or EndOfFile. *)
+Theorem lex_high_bytes_ordinary modes data toks i b :
+  lex_stream modes data = Ok toks -> nth_error data i = Some b -> 128 <= b -> (i < toks_end 0 toks)%nat ->
+  exists m t, In (m, t) (combine modes toks) /\ (tk_start t <= i < tk_start t + tk_len t)%nat /\
+    ((tk_kind t = TkString /\ (m = MPathString \/ m = MVariableString)) \/
+     (tk_kind t = TkComment /\ regular_mode m /\ (tk_start t < i)%nat) \/
+     (tk_kind t = TkUnknown /\ regular_mode m /\ tk_start t = i /\ tk_len t = 1%nat)).
+Proof.
+  intros E Hn Hb Hi. destruct (lex_stream_spec modes data toks E) as [pe [re SS]].
+  destruct (stream_data _ _ _ _ _ _ SS [] eq_refl) as [_ [_ [_ [H4 _]]]].
+  destruct (stream_index _ _ _ _ _ _ SS i b Hn) as [G|[m [t [body [rest' [off [Hin [Hk [Ho [Hp Hl]]]]]]]]]].
+  - rewrite <- H4. exact Hi.
+  - exfalso. pose proof (high_not_nn_space b Hb) as Q. destruct G as [G|[G|[G|G]]]; [congruence | lia | lia | lia].
+  - exists m, t. split; [exact Hin|].
+    assert (Hoff : (off < length body)%nat) by (apply nth_error_Some; congruence).
+    split; [lia|].
+    destruct (kind_facts_high m _ body rest' b off Hk Ho Hb) as [[K Hm]|[[K [Hm Hoff']]|[K [Hm [Hbody Hoff']]]]].
+    + left. tauto.
+    + right. left. split; [exact K|]. split; [exact Hm | lia].
+    + right. right. split; [exact K|]. split; [exact Hm|]. subst body. cbn [length] in Hl. lia.
+Qed.
+
+Lemma in_combine_repeat (m m' : mode) n (t : token) toks : In (m', t) (combine (repeat m n) toks) -> m' = m /\ In t toks.
+Proof.
+  intros H. split.
+  - apply in_combine_l in H. apply repeat_spec in H. exact H.
+  - apply in_combine_r in H. exact H.
+Qed.
+
+(* constant string mode until EndOfFile: EVERY byte >= 128 of the input lies inside a String token *)
+Theorem lex_all_high_bytes_in_strings m data toks i b :
+  lex_all m data = Ok toks -> m = MPathString \/ m = MVariableString -> nth_error data i = Some b -> 128 <= b ->
+  exists t, In t toks /\ tk_kind t = TkString /\ (tk_start t <= i < tk_start t + tk_len t)%nat.
+Proof.
+  intros E Hm Hn Hb. destruct (lex_all_stream m data toks E) as [E1 _].
+  destruct (lex_all_tiles m data toks E) as [_ [He _]].
+  destruct (lex_high_bytes_ordinary _ data toks i b E1 Hn Hb) as [m' [t [Hin [Hr Hc]]]].
+  { rewrite He. apply nth_error_Some. congruence. }
+  apply in_combine_repeat in Hin. destruct Hin as [-> Hin].
+  exists t. split; [exact Hin|]. split; [|exact Hr].
+  destruct Hc as [[K _]|[[_ [Hreg _]]|[_ [Hreg _]]]]; [exact K | |];
+    destruct Hreg as [Hreg|Hreg]; destruct Hm as [Hm|Hm]; congruence.
+Qed.
+
+(* constant mode without strings: every byte >= 128 is an Unknown token of length 1, or lies inside a comment *)
+Theorem lex_all_high_bytes_unknown m data toks i b :
+  lex_all m data = Ok toks -> regular_mode m -> nth_error data i = Some b -> 128 <= b ->
+  exists t, In t toks /\ (tk_start t <= i < tk_start t + tk_len t)%nat /\
+            ((tk_kind t = TkUnknown /\ tk_start t = i /\ tk_len t = 1%nat) \/ (tk_kind t = TkComment /\ (tk_start t < i)%nat)).
+Proof.
+  intros E Hm Hn Hb. destruct (lex_all_stream m data toks E) as [E1 _].
+  destruct (lex_all_tiles m data toks E) as [_ [He _]].
+  destruct (lex_high_bytes_ordinary _ data toks i b E1 Hn Hb) as [m' [t [Hin [Hr Hc]]]].
+  { rewrite He. apply nth_error_Some. congruence. }
+  apply in_combine_repeat in Hin. destruct Hin as [-> Hin].
+  exists t. split; [exact Hin|]. split; [exact Hr|].
+  destruct Hc as [[_ Hs]|[[K [_ Hlt]]|[K [_ Hrest]]]].
+  - exfalso. destruct Hm as [Hm|Hm]; destruct Hs as [Hs|Hs]; congruence.
+  - right. tauto.
+  - left. tauto.
+Qed.
+
+(* ---------- keywords are recognised only as whole words ---------- *)
+
+Lemma ident_kind_of_keyword w k : In (w, k) keyword_table -> ident_kind w = k.
+Proof.
+  intros H. cbn in H.
+  repeat (destruct H as [H|H]; [inversion H; subst; vm_compute; reflexivity|]). destruct H.
+Qed.
+
+Lemma ident_kind_keyword w : is_keyword (ident_kind w) = true -> In (w, ident_kind w) keyword_table.
+Proof.
+  unfold ident_kind.
+  destruct (length w) as [|[|[|[|[|[|[|[|[|n]]]]]]]]]; try (cbn; discriminate).
+  - destruct (bytes_eqb w kw_rule) eqn:E1; [apply bytes_eqb_eq in E1; subst w; intros _; cbn; tauto|].
+    destruct (bytes_eqb w kw_pool) eqn:E2; [apply bytes_eqb_eq in E2; subst w; intros _; cbn; tauto|].
+    cbn; discriminate.
+  - destruct (bytes_eqb w kw_build) eqn:E1; [apply bytes_eqb_eq in E1; subst w; intros _; cbn; tauto|].
+    cbn; discriminate.
+  - destruct (bytes_eqb w kw_default) eqn:E1; [apply bytes_eqb_eq in E1; subst w; intros _; cbn; tauto|].
+    destruct (bytes_eqb w kw_include) eqn:E2; [apply bytes_eqb_eq in E2; subst w; intros _; cbn; tauto|].
+    cbn; discriminate.
+  - destruct (bytes_eqb w kw_subninja) eqn:E1; [apply bytes_eqb_eq in E1; subst w; intros _; cbn; tauto|].
+    cbn; discriminate.
+Qed.
+
+Lemma keyword_table_kinds w k : In (w, k) keyword_table -> is_keyword k = true /\ w <> [] /\ Forall (fun b => is_ident_char b = true) w.
+Proof.
+  intros H. cbn in H.
+  repeat (destruct H as [H|H]; [inversion H; subst; split; [reflexivity|]; split; [discriminate|];
+                                repeat constructor|]). destruct H.
+Qed.
+
+(* a token kind, its bytes and what follows it - independent of the buffer representation *)
+Lemma kind_facts_keywords m k body rest' : kind_facts m k body rest' ->
+  (is_keyword k = true -> m = MNone /\ In (body, k) keyword_table) /\
+  (m = MNone -> forall k', In (body, k') keyword_table -> k = k') /\
+  (is_identlike k = true ->
+     body <> [] /\ Forall (fun b => is_ident_char b = true) body /\ ends_with (fun b => negb (is_ident_char b)) rest').
+Proof.
+  intros Hk.
+  assert (Hident : is_identlike k = true ->
+            body <> [] /\ Forall (fun b => is_ident_char b = true) body /\
+            ends_with (fun b => negb (is_ident_char b)) rest' /\ regular_mode m /\
+            k = match m with MIdentifierSpecific => TkIdentifier | _ => ident_kind body end).
+  { intros Hi. destruct k; try discriminate Hi; exact Hk. }
+  split; [|split].
+  - intros Kw. assert (Hi : is_identlike k = true) by (destruct k; try discriminate Kw; reflexivity).
+    destruct (Hident Hi) as [_ [_ [_ [Hreg Hkk]]]].
+    destruct m.
+    + split; [reflexivity|]. rewrite Hkk in Kw |- *. apply ident_kind_keyword. exact Kw.
+    + destruct Hreg; discriminate.
+    + destruct Hreg; discriminate.
+    + rewrite Hkk in Kw. discriminate.
+  - intros -> k' Hin. destruct (keyword_table_kinds body k' Hin) as [Kw' [Hne Hall]].
+    pose proof (ident_kind_of_keyword body k' Hin) as Hik.
+    assert (Hhead : exists b0 body', body = b0 :: body' /\ is_ident_char b0 = true).
+    { destruct body as [|b0 body']; [congruence|]. inversion Hall; subst. eauto. }
+    destruct Hhead as [b0 [body' [Hb0 Hid0]]].
+    destruct k; cbn [kind_facts] in Hk;
+      try (destruct Hk as [_ [_ [_ [_ Hkk]]]]; rewrite Hkk; exact Hik).
+    + (* Colon *) destruct Hk as [Hk _]. rewrite Hk in Hb0. inversion Hb0; subst. discriminate.
+    + (* Comment *) destruct Hk as [c [Hk _]]. rewrite Hk in Hb0. inversion Hb0; subst. discriminate.
+    + (* EndOfFile *) destruct Hk as [Hk _]. congruence.
+    + (* Equals *) destruct Hk as [Hk _]. rewrite Hk in Hb0. inversion Hb0; subst. discriminate.
+    + (* Indentation *) destruct Hk as [_ [F _]]. rewrite Hb0 in F. inversion F as [|x l Hx]; subst.
+      destruct (is_nn_space b0) eqn:Es; [|discriminate].
+      unfold is_nn_space in Es. unfold is_ident_char in Hid0. exfalso.
+      apply andb_true_iff in Es. destruct Es as [Es _]. apply andb_true_iff in Es. destruct Es as [Es _].
+      unfold is_space in Es. apply orb_true_iff in Es.
+      assert (Q : b0 <= 32).
+      { destruct Es as [Es|Es]; [apply andb_true_iff in Es; destruct Es as [_ Es]; apply N.leb_le in Es; lia
+                                | apply N.eqb_eq in Es; lia]. }
+      repeat (apply orb_true_iff in Hid0; destruct Hid0 as [Hid0|Hid0]);
+        try (apply andb_true_iff in Hid0; destruct Hid0 as [Hid0 _]; apply N.leb_le in Hid0; lia);
+        apply N.eqb_eq in Hid0; lia.
+    + (* Newline *) exfalso. destruct Hk as [Hk|[Hk|[Hk|Hk]]]; rewrite Hk in Hb0; inversion Hb0; subst; discriminate.
+    + (* Pipe *) destruct Hk as [Hk _]. rewrite Hk in Hb0. inversion Hb0; subst. discriminate.
+    + (* PipePipe *) destruct Hk as [Hk _]. rewrite Hk in Hb0. inversion Hb0; subst. discriminate.
+    + (* String *) destruct Hk as [_ [[Hm _]|[Hm _]]]; discriminate.
+    + (* Unknown *) destruct Hk as [x [Hk [Hx _]]]. rewrite Hk in Hb0. inversion Hb0; subst. congruence.
+  - intros Hi. destruct (Hident Hi) as [H1 [H2 [H3 _]]]. auto.
+Qed.
+
+(* lex_keywords_whole.  For one lex call from any cursor, in any mode, w = the bytes of the token:
+   (1) a keyword kind is produced only in mode None and only when w is exactly the spelling of that keyword;
+   (2) in mode None a token spelled exactly as a keyword always gets that keyword's kind;
+   (3) an identifier or keyword token is a maximal run of identifier characters to the right: it is non-empty, made
+       of identifier characters, and the byte behind it (if any) is not an identifier character.
+   Hence in the modes IdentifierSpecific, PathString and VariableString no keyword kind is ever produced. *)
+Theorem lex_keywords_whole data m s t s' : at_data data s -> lex m s = Ok (t, s') ->
+  (is_keyword (tk_kind t) = true -> m = MNone /\ In (token_slice data t, tk_kind t) keyword_table) /\
+  (m = MNone -> forall k, In (token_slice data t, k) keyword_table -> tk_kind t = k) /\
+  (is_identlike (tk_kind t) = true ->
+     token_slice data t <> [] /\ Forall (fun b => is_ident_char b = true) (token_slice data t) /\
+     ends_with (fun b => negb (is_ident_char b)) (token_after data t)).
+Proof.
+  intros A E. destruct (lex_call_facts data m s t s' A E) as [_ [_ [_ [_ [_ Hf]]]]].
+  exact (kind_facts_keywords m _ _ _ Hf).
+Qed.
+
+Corollary lex_no_keywords_outside_none data m s t s' : at_data data s -> lex m s = Ok (t, s') ->
+  m <> MNone -> is_keyword (tk_kind t) = false.
+Proof.
+  intros A E Hm. destruct (lex_keywords_whole data m s t s' A E) as [H _].
+  destruct (is_keyword (tk_kind t)); [|reflexivity]. destruct (H eq_refl). congruence.
+Qed.
+
+(* ---------- the keyword property over a probed table ---------- *)
+
+Lemma all_bytes_In b : In b all_bytes <-> b < 256.
+Proof.
+  unfold all_bytes. rewrite in_map_iff. split.
+  - intros [n [Hn Hi]]. apply in_seq in Hi. lia.
+  - intros H. exists (N.to_nat b). split; [apply N2Nat.id|]. apply in_seq. lia.
+Qed.
+
+Lemma mem_N_In b l : mem_N b l = true <-> In b l.
+Proof.
+  unfold mem_N. rewrite existsb_exists. split.
+  - intros [x [Hx He]]. apply N.eqb_eq in He. subst x. exact Hx.
+  - intros H. exists b. split; [exact H | apply N.eqb_refl].
+Qed.
+
+(* a probed character class that matches f on 0..255 is f, for a class f without members above 255 *)
+Lemma charclass_all f ic : charclass_matches f ic = true -> (forall b, 256 <= b -> f b = false) ->
+  forall b, mem_N b ic = f b.
+Proof.
+  unfold charclass_matches. intros H Hf b. apply andb_true_iff in H. destruct H as [H1 H2].
+  rewrite forallb_forall in H1, H2.
+  destruct (N.lt_ge_cases b 256) as [L|L].
+  - assert (Hin : In b all_bytes) by (apply all_bytes_In; exact L).
+    specialize (H1 b Hin). apply Bool.eqb_prop in H1. symmetry. exact H1.
+  - rewrite (Hf b L). destruct (mem_N b ic) eqn:E; [|reflexivity].
+    apply mem_N_In in E. specialize (H2 b E). apply N.ltb_lt in H2. lia.
+Qed.
+
+Lemma ident_char_small b : 256 <= b -> is_ident_char b = false.
+Proof. intros H. apply high_not_ident. lia. Qed.
+
+Lemma ident_prefix_unique ic (Hic : forall b, mem_N b ic = is_ident_char b) body : forall rest',
+  Forall (fun b => is_ident_char b = true) body -> ends_with (fun b => negb (is_ident_char b)) rest' ->
+  ident_prefix ic (body ++ rest') = body.
+Proof.
+  induction body as [|b body IH]; intros rest' F He.
+  - cbn [app]. destruct rest' as [|c r]; [reflexivity|]. cbn [ident_prefix]. rewrite Hic.
+    cbn in He. apply negb_true_iff in He. rewrite He. reflexivity.
+  - inversion F as [|x l Hb F']; subst. cbn [app ident_prefix]. rewrite Hic, Hb. f_equal. apply IH; assumption.
+Qed.
+
+Lemma ident_prefix_nil ic (Hic : forall b, mem_N b ic = is_ident_char b) w :
+  ident_prefix ic w = [] -> ends_with (fun b => negb (is_ident_char b)) w.
+Proof.
+  destruct w as [|b r]; [intros _; exact I|]. cbn [ident_prefix]. rewrite Hic.
+  destruct (is_ident_char b) eqn:E; [discriminate|]. intros _. cbn. rewrite E. reflexivity.
+Qed.
+
+Lemma nn_space_not_ident b : is_nn_space b = true -> is_ident_char b = false.
+Proof.
+  intros Es. destruct (is_ident_char b) eqn:Hid0; [|reflexivity]. exfalso.
+  unfold is_nn_space in Es. unfold is_ident_char in Hid0.
+  apply andb_true_iff in Es. destruct Es as [Es _]. apply andb_true_iff in Es. destruct Es as [Es _].
+  unfold is_space in Es. apply orb_true_iff in Es.
+  assert (Q : b <= 32).
+  { destruct Es as [Es|Es]; [apply andb_true_iff in Es; destruct Es as [_ Es]; apply N.leb_le in Es; lia
+                            | apply N.eqb_eq in Es; lia]. }
+  repeat (apply orb_true_iff in Hid0; destruct Hid0 as [Hid0|Hid0]);
+    try (apply andb_true_iff in Hid0; destruct Hid0 as [Hid0 _]; apply N.leb_le in Hid0; lia);
+    apply N.eqb_eq in Hid0; lia.
+Qed.
+
+Lemma is_keyword_code_kind k : is_keyword_code (kind_code k) = is_keyword k.
+Proof. destruct k; reflexivity. Qed.
+
+Lemma ident_kind_lookup p :
+  kind_code (ident_kind p) = match lookup_bytes p keyword_codes with Some kc => kc | None => 5 end.
+Proof.
+  change keyword_codes with [(kw_rule, 10); (kw_pool, 9); (kw_build, 6); (kw_default, 7); (kw_include, 8); (kw_subninja, 11)].
+  cbn [lookup_bytes].
+  destruct (bytes_eqb p kw_rule) eqn:E1; [apply bytes_eqb_eq in E1; subst p; reflexivity|].
+  destruct (bytes_eqb p kw_pool) eqn:E2; [apply bytes_eqb_eq in E2; subst p; reflexivity|].
+  destruct (bytes_eqb p kw_build) eqn:E3; [apply bytes_eqb_eq in E3; subst p; reflexivity|].
+  destruct (bytes_eqb p kw_default) eqn:E4; [apply bytes_eqb_eq in E4; subst p; reflexivity|].
+  destruct (bytes_eqb p kw_include) eqn:E5; [apply bytes_eqb_eq in E5; subst p; reflexivity|].
+  destruct (bytes_eqb p kw_subninja) eqn:E6; [apply bytes_eqb_eq in E6; subst p; reflexivity|].
+  unfold ident_kind. rewrite E1, E2, E3, E4, E5, E6.
+  destruct (length p) as [|[|[|[|[|[|[|[|[|n]]]]]]]]]; reflexivity.
+Qed.
+
+(* a token that starts with an identifier character is an identifier, a keyword or a string *)
+Lemma kind_facts_head_ident m k body rest' b0 body' :
+  kind_facts m k body rest' -> body = b0 :: body' -> is_ident_char b0 = true ->
+  is_identlike k = true \/ k = TkString.
+Proof.
+  intros Hk Hb0 Hid0.
+  destruct k; cbn [kind_facts] in Hk; try (left; reflexivity); try (right; reflexivity); exfalso.
+  - destruct Hk as [Hk _]. rewrite Hk in Hb0. inversion Hb0; subst. discriminate.
+  - destruct Hk as [c [Hk _]]. rewrite Hk in Hb0. inversion Hb0; subst. discriminate.
+  - destruct Hk as [Hk _]. congruence.
+  - destruct Hk as [Hk _]. rewrite Hk in Hb0. inversion Hb0; subst. discriminate.
+  - destruct Hk as [_ [F _]]. rewrite Hb0 in F. inversion F as [|x l Hx]; subst.
+    rewrite (nn_space_not_ident b0 Hx) in Hid0. discriminate.
+  - destruct Hk as [Hk|[Hk|[Hk|Hk]]]; rewrite Hk in Hb0; inversion Hb0; subst; discriminate.
+  - destruct Hk as [Hk _]. rewrite Hk in Hb0. inversion Hb0; subst. discriminate.
+  - destruct Hk as [Hk _]. rewrite Hk in Hb0. inversion Hb0; subst. discriminate.
+  - destruct Hk as [x [Hk [Hx _]]]. rewrite Hk in Hb0. inversion Hb0; subst. congruence.
+Qed.
+
+(* at the start of a line, leading whitespace is an Indentation token and '$' is not a continuation *)
+Lemma lex_col0_space m (b : byte) (r : bytes) pos line t s' : is_nn_space b = true ->
+  lex m (mkL (b :: r) pos line 0) = Ok (t, s') -> tk_kind t = TkIndentation.
+Proof.
+  intros Hb. unfold lex. cbn [peek l_rest opt_test l_col]. rewrite Hb. cbn [andb N.eqb].
+  destruct (nn_space_loop _ _); [|discriminate]. intros E. inversion E. reflexivity.
+Qed.
+
+Lemma lex_col0_dollar (r : bytes) pos line t s' :
+  lex MNone (mkL (36 :: r) pos line 0) = Ok (t, s') -> tk_kind t = TkUnknown.
+Proof.
+  unfold lex. cbn [peek l_rest opt_test l_col]. change (is_nn_space 36) with false. cbn [andb].
+  cbn [ws_loop peek l_rest l_col]. change (36 =? 36) with true. change (0 =? 0) with true. cbn [negb andb].
+  change (is_nn_space 36) with false. cbn [peek l_rest]. change (is_nl 36) with false. cbv iota.
+  unfold lex_regular. rewrite (skipc_plain 36) by reflexivity.
+  change (36 =? 58) with false. change (36 =? 61) with false. change (36 =? 35) with false.
+  change (36 =? 124) with false. change (is_ident_char 36) with false. cbv iota.
+  intros E. inversion E. reflexivity.
+Qed.
+
+(* The model's lexer satisfies the probe-table property on EVERY input, for every probed identifier-character
+   class that coincides with the model's on 0..255: so a probed table that the model reproduces
+   (keywords_match_model) is known to satisfy keywords_ok without looking at it - and a table from a lexer with
+   a different keyword decision fails keywords_ok or keywords_match_model by computation. *)
+Theorem lex_first_token_kw_ok ic : charclass_matches is_ident_char ic = true ->
+  forall mc w t s', mc < 4 -> lex (mode_of_code mc) (init w) = Ok (t, s') ->
+    kw_entry_ok ic (mc, w, kind_code (tk_kind t), N.of_nat (tk_len t)) = true.
+Proof.
+  intros Hc mc w t s' Hmc E.
+  pose proof (charclass_all _ _ Hc ident_char_small) as Hic.
+  destruct (lex_call _ _ _ _ E) as [gap [body [Hr [Hg [_ [Hl [_ [Hk Hne]]]]]]]].
+  cbn [init l_rest] in Hr.
+  destruct (kind_facts_keywords _ _ _ _ Hk) as [K1 [K2 K3]].
+  unfold kw_entry_ok.
+  destruct (ident_prefix ic w) as [|p0 p'] eqn:Ep.
+  - (* the input does not start with an identifier character: no keyword kind *)
+    rewrite is_keyword_code_kind. apply negb_true_iff.
+    destruct (is_keyword (tk_kind t)) eqn:Kw; [exfalso|reflexivity].
+    destruct (K1 eq_refl) as [Hm Hin]. destruct (keyword_table_kinds _ _ Hin) as [_ [Hbne Hball]].
+    pose proof (ident_prefix_nil ic Hic w Ep) as Hw.
+    destruct gap as [|g gap'].
+    + cbn [app] in Hr. destruct body as [|b0 body']; [congruence|]. inversion Hball as [|x l Hb0 _]; subst.
+      cbn in Hw. rewrite Hb0 in Hw. discriminate.
+    + destruct (gap_units_head g gap' Hg) as [Hsp| ->].
+      * rewrite Hr in E. cbn [app init] in E. rewrite (lex_col0_space _ _ _ _ _ _ _ Hsp E) in Kw. discriminate.
+      * rewrite Hr, Hm in E. cbn [app init] in E. rewrite (lex_col0_dollar _ _ _ _ _ E) in Kw. discriminate.
+  - (* the input starts with an identifier character *)
+    assert (Hw0 : exists r0, w = p0 :: r0 /\ is_ident_char p0 = true).
+    { destruct w as [|b r0]; [discriminate Ep|]. cbn [ident_prefix] in Ep. rewrite Hic in Ep.
+      destruct (is_ident_char b) eqn:Eb; [|discriminate Ep]. inversion Ep; subst. eauto. }
+    destruct Hw0 as [r0 [Hw0 Hp0]].
+    assert (Hgap : gap = []).
+    { destruct gap as [|g gap']; [reflexivity|]. exfalso. rewrite Hw0 in Hr. cbn [app] in Hr. inversion Hr; subst g.
+      destruct (gap_units_head p0 gap' Hg) as [Hsp| ->].
+      - rewrite (nn_space_not_ident p0 Hsp) in Hp0. discriminate.
+      - discriminate Hp0. }
+    subst gap. cbn [app] in Hr.
+    assert (Hbody : exists body', body = p0 :: body').
+    { destruct body as [|b0 body'].
+      - assert (Ke : tk_kind t = TkEndOfFile).
+        { destruct (tk_kind t) eqn:K; try (exfalso; apply Hne; [discriminate | reflexivity]). reflexivity. }
+        rewrite Ke in Hk. cbn in Hk. destruct Hk as [_ Hre]. rewrite Hre in Hr. cbn in Hr. congruence.
+      - rewrite Hw0 in Hr. cbn [app] in Hr. inversion Hr; subst. eauto. }
+    destruct Hbody as [body' Hbody].
+    assert (Hidl : is_identlike (tk_kind t) = true -> (p0 :: p') = body).
+    { intros Hi. destruct (K3 Hi) as [_ [F He]]. rewrite <- Ep, Hr. apply ident_prefix_unique; assumption. }
+    destruct (N.eqb_spec mc 0) as [M0|M0].
+    + subst mc. change (mode_of_code 0) with MNone in *.
+      destruct (kind_facts_head_ident _ _ _ _ _ _ Hk Hbody Hp0) as [Hi|Hs].
+      * rewrite (Hidl Hi). rewrite Hl, N.eqb_refl, andb_true_r. apply N.eqb_eq.
+        rewrite <- ident_kind_lookup. f_equal.
+        destruct (tk_kind t); try discriminate Hi; cbn [kind_facts] in Hk; tauto.
+      * rewrite Hs in Hk. cbn in Hk. destruct Hk as [_ [[Hm _]|[Hm _]]]; discriminate.
+    + destruct (N.eqb_spec mc 3) as [M3|M3].
+      * subst mc. change (mode_of_code 3) with MIdentifierSpecific in *.
+        destruct (kind_facts_head_ident _ _ _ _ _ _ Hk Hbody Hp0) as [Hi|Hs].
+        -- rewrite (Hidl Hi). rewrite Hl, N.eqb_refl, andb_true_r. apply N.eqb_eq.
+           assert (Kt : tk_kind t = TkIdentifier).
+           { destruct (tk_kind t); try discriminate Hi; cbn [kind_facts] in Hk; tauto. }
+           rewrite Kt. reflexivity.
+        -- rewrite Hs in Hk. cbn in Hk. destruct Hk as [_ [[Hm _]|[Hm _]]]; discriminate.
+      * rewrite is_keyword_code_kind. apply negb_true_iff.
+        destruct (is_keyword (tk_kind t)) eqn:Kw; [exfalso|reflexivity].
+        destruct (K1 eq_refl) as [Hm _].
+        assert (Hmc' : mc = 1 \/ mc = 2) by lia.
+        destruct Hmc' as [-> | ->]; discriminate Hm.
+Qed.
+
+(* hence: every table whose entries the model reproduces satisfies the keyword property *)
+Corollary keywords_match_model_ok ic tbl : charclass_matches is_ident_char ic = true ->
+  forallb (fun e => let '(m, _, _, _) := e in m <? 4) tbl = true ->
+  keywords_match_model tbl = true -> keywords_ok ic tbl = true.
+Proof.
+  intros Hc Hm Hmm. unfold keywords_ok, keywords_match_model in *. rewrite forallb_forall in *.
+  intros [[[mc w] k] n] Hin. specialize (Hm _ Hin). specialize (Hmm _ Hin). cbn in Hm. apply N.ltb_lt in Hm.
+  unfold kw_entry_matches_model in Hmm.
+  destruct (lex (mode_of_code mc) (init w)) as [[t s']|] eqn:E; [|discriminate].
+  apply andb_true_iff in Hmm. destruct Hmm as [H1 H2]. apply N.eqb_eq in H1. apply N.eqb_eq in H2. subst k n.
+  exact (lex_first_token_kw_ok ic Hc mc w t s' Hm E).
+Qed.
+
+(* ---------- whole words, to the left as well ---------- *)
+
+Definition nonident_head (l : bytes) : Prop := ends_with (fun b => negb (is_ident_char b)) l.
+
+(* l is empty or its last byte is not an identifier character *)
+Definition nonident_last (l : bytes) : Prop := l = [] \/ exists l' x, l = l' ++ [x] /\ is_ident_char x = false.
+
+Lemma nonident_last_app a b : b <> [] -> nonident_last b -> nonident_last (a ++ b).
+Proof.
+  intros Hb [->|[l' [x [-> Hx]]]]; [congruence|]. right. exists (a ++ l'), x. split; [apply app_assoc | exact Hx].
+Qed.
+
+Lemma nonident_last_one x : is_ident_char x = false -> nonident_last [x].
+Proof. intros H. right. exists [], x. split; [reflexivity | exact H]. Qed.
+
+Lemma gap_units_last c : gap_units c -> nonident_last c.
+Proof.
+  induction 1 as [|b r Hb _ IH|r _ IH|r _ IH|r _ IH].
+  - left. reflexivity.
+  - destruct r as [|r0 r1].
+    + apply nonident_last_one. apply nn_space_not_ident. exact Hb.
+    + apply (nonident_last_app [b]); [discriminate | exact IH].
+  - destruct r as [|r0 r1].
+    + apply (nonident_last_app [36] [10]); [discriminate | apply nonident_last_one; reflexivity].
+    + apply (nonident_last_app [36; 10]); [discriminate | exact IH].
+  - destruct r as [|r0 r1].
+    + apply (nonident_last_app [36; 10] [13]); [discriminate | apply nonident_last_one; reflexivity].
+    + apply (nonident_last_app [36; 10; 13]); [discriminate | exact IH].
+  - destruct r as [|r0 r1].
+    + apply (nonident_last_app [36; 13] [10]); [discriminate | apply nonident_last_one; reflexivity].
+    + apply (nonident_last_app [36; 13; 10]); [discriminate | exact IH].
+Qed.
+
+Lemma ends_with_impl (f g : byte -> bool) l : (forall b, f b = true -> g b = true) -> ends_with f l -> ends_with g l.
+Proof. intros H. destruct l as [|b r]; [trivial|]. cbn. apply H. Qed.
+
+Lemma nl_not_ident b : is_nl b = true -> negb (is_ident_char b) = true.
+Proof. intros H. apply negb_true_iff. destruct (is_ident_char b) eqn:E; [|reflexivity]. apply ident_not_nl in E. congruence. Qed.
+
+Lemma path_stop_not_ident b : path_stop b = true -> negb (is_ident_char b) = true.
+Proof.
+  unfold path_stop. intros H. apply orb_true_iff in H. destruct H as [H|H]; [apply orb_true_iff in H; destruct H as [H|H]|].
+  - apply space_split in H. destruct H as [H|H]; [|apply nl_not_ident; exact H].
+    apply negb_true_iff. apply nn_space_not_ident. exact H.
+  - apply N.eqb_eq in H. subst b. reflexivity.
+  - apply N.eqb_eq in H. subst b. reflexivity.
+Qed.
+
+(* behind every token there is a word boundary: its last byte is not an identifier character, or the byte that
+   follows it is not one (or there is none) *)
+Lemma kind_facts_boundary m k body r' : kind_facts m k body r' ->
+  (body <> [] /\ nonident_last body) \/ nonident_head r'.
+Proof.
+  intros Hk.
+  assert (Hident : is_identlike k = true -> nonident_head r').
+  { intros Hi. destruct (kind_facts_keywords _ _ _ _ Hk) as [_ [_ K3]]. destruct (K3 Hi) as [_ [_ H]]. exact H. }
+  destruct k; cbn [kind_facts] in Hk; try (right; apply Hident; reflexivity).
+  - left. destruct Hk as [-> _]. split; [discriminate | apply nonident_last_one; reflexivity].
+  - right. destruct Hk as [c [_ [_ [He _]]]]. exact (ends_with_impl _ _ _ nl_not_ident He).
+  - right. destruct Hk as [_ ->]. exact I.
+  - left. destruct Hk as [-> _]. split; [discriminate | apply nonident_last_one; reflexivity].
+  - left. destruct Hk as [Hne [F _]]. split; [exact Hne|].
+    destruct (exists_last Hne) as [l' [x Hx]]. right. exists l', x. split; [exact Hx|].
+    rewrite Hx in F. apply Forall_app in F. destruct F as [_ F]. inversion F; subst.
+    apply nn_space_not_ident. assumption.
+  - left. destruct Hk as [-> |[-> |[-> | -> ]]].
+    + split; [discriminate | apply nonident_last_one; reflexivity].
+    + split; [discriminate | apply nonident_last_one; reflexivity].
+    + split; [discriminate | apply (nonident_last_app [10] [13]); [discriminate | apply nonident_last_one; reflexivity]].
+    + split; [discriminate | apply (nonident_last_app [13] [10]); [discriminate | apply nonident_last_one; reflexivity]].
+  - left. destruct Hk as [-> _]. split; [discriminate | apply nonident_last_one; reflexivity].
+  - left. destruct Hk as [-> _].
+    split; [discriminate | apply (nonident_last_app [124] [124]); [discriminate | apply nonident_last_one; reflexivity]].
+  - right. destruct Hk as [_ [[_ He]|[_ He]]].
+    + exact (ends_with_impl _ _ _ nl_not_ident He).
+    + exact (ends_with_impl _ _ _ path_stop_not_ident He).
+  - left. destruct Hk as [x [-> [Hx _]]]. split; [discriminate | apply nonident_last_one; exact Hx].
+Qed.
+
+(* token t starts at offset 0 or the byte in front of it is not an identifier character *)
+Definition left_boundary (data : bytes) (t : token) : Prop :=
+  tk_start t = 0%nat \/ exists x, nth_error data (tk_start t - 1) = Some x /\ is_ident_char x = false.
+
+Lemma stream_boundary modes pos r toks pos_e r_e : stream_spec modes pos r toks pos_e r_e ->
+  forall pre, length pre = pos -> nonident_last pre \/ nonident_head r ->
+    Forall (fun t => is_identlike (tk_kind t) = true -> left_boundary (pre ++ r) t) toks.
+Proof.
+  induction 1 as [pos r | m ms pos gap body r' t ts pos_e r_e Hg Hs Hl Hk Hne SS IH]; intros pre P Hb; [constructor|].
+  assert (D2 : pre ++ gap ++ body ++ r' = (pre ++ gap ++ body) ++ r') by (rewrite <- !app_assoc; reflexivity).
+  assert (P2 : length (pre ++ gap ++ body) = (pos + length gap + length body)%nat) by (rewrite !app_length; lia).
+  constructor.
+  - intros Hi. destruct (kind_facts_keywords _ _ _ _ Hk) as [_ [_ K3]]. destruct (K3 Hi) as [Hbne [F _]].
+    destruct body as [|b0 body']; [congruence|]. inversion F as [|x l Hb0 _]; subst x l.
+    assert (Hpg : nonident_last (pre ++ gap)).
+    { destruct gap as [|g gap'].
+      - rewrite app_nil_r. destruct Hb as [Hb|Hb]; [exact Hb|]. cbn in Hb. rewrite Hb0 in Hb. discriminate.
+      - apply nonident_last_app; [discriminate | apply gap_units_last; exact Hg]. }
+    unfold left_boundary. rewrite Hs, <- P, <- app_length.
+    destruct Hpg as [Hpg|[l' [x [Hpg Hx]]]].
+    + left. rewrite Hpg. reflexivity.
+    + right. exists x. split; [|exact Hx]. rewrite app_assoc, Hpg, app_length. cbn [length].
+      replace (length l' + 1 - 1)%nat with (length l') by lia.
+      rewrite <- app_assoc. rewrite nth_error_app2 by lia. rewrite Nat.sub_diag. reflexivity.
+  - rewrite D2. apply (IH _ P2).
+    destruct (kind_facts_boundary _ _ _ _ Hk) as [[Hbne Hbl]|Hr]; [left|right; exact Hr].
+    rewrite app_assoc. apply nonident_last_app; assumption.
+Qed.
+
+(* lex_keywords_whole, left side: for every mode sequence, an identifier or keyword token starts at offset 0 or
+   directly behind a byte that is not an identifier character.  With part (3) of lex_keywords_whole: a keyword
+   token is a maximal run of identifier characters on both sides - "rule" inside "xrule", "rules", "my.rule" is
+   never a keyword token. *)
+Theorem lex_identifier_left_boundary modes data toks t : lex_stream modes data = Ok toks -> In t toks ->
+  is_identlike (tk_kind t) = true -> left_boundary data t.
+Proof.
+  intros E Hin Hi. destruct (lex_stream_spec modes data toks E) as [pe [re SS]].
+  pose proof (stream_boundary _ _ _ _ _ _ SS [] eq_refl (or_introl (or_introl eq_refl))) as F.
+  rewrite Forall_forall in F. exact (F t Hin Hi).
+Qed.
+
+
+(* ---------- non-vacuity: concrete instances that meet the hypotheses ---------- *)
+
+(* "rule cc$\n  x = \xff\r\nbuild a: b $"  (a '$' as the last byte, a byte 0xFF, a CRLF, a "$\n" continuation) *)
+Definition ex_manifest : bytes :=
+  [114;117;108;101;32;99;99;36;10;32;32;120;32;61;32;255;13;10;98;117;105;108;100;32;97;58;32;98;32;36].
+
+Example ex_lex_all_none :
+  lex_all MNone ex_manifest =
+  Ok [mkTok TkKWRule 0 4 1 0; mkTok TkIdentifier 5 2 1 5; mkTok TkIdentifier 11 1 2 2; mkTok TkEquals 13 1 2 4;
+      mkTok TkUnknown 15 1 2 6; mkTok TkNewline 16 2 2 7; mkTok TkKWBuild 18 5 3 0; mkTok TkIdentifier 24 1 3 6;
+      mkTok TkColon 25 1 3 7; mkTok TkIdentifier 27 1 3 9; mkTok TkUnknown 29 1 3 11; mkTok TkEndOfFile 30 0 3 12].
+Proof. vm_compute. reflexivity. Qed.
+
+Example ex_lex_all_path :
+  lex_all MPathString ex_manifest =
+  Ok [mkTok TkString 0 4 1 0; mkTok TkString 5 7 1 5; mkTok TkString 13 1 2 4; mkTok TkString 15 1 2 6;
+      mkTok TkNewline 16 2 2 7; mkTok TkString 18 5 3 0; mkTok TkString 24 1 3 6; mkTok TkColon 25 1 3 7;
+      mkTok TkString 27 1 3 9; mkTok TkString 29 1 3 11; mkTok TkEndOfFile 30 0 3 12].
+Proof. vm_compute. reflexivity. Qed.
+
+Example ex_lex_all_var :
+  lex_all MVariableString ex_manifest =
+  Ok [mkTok TkString 0 16 1 0; mkTok TkNewline 16 2 2 7; mkTok TkString 18 12 3 0; mkTok TkEndOfFile 30 0 3 12].
+Proof. vm_compute. reflexivity. Qed.
+
+(* an adversarial mode sequence (the parser's setMode calls in any order), more calls than tokens: EndOfFile repeats *)
+Example ex_lex_stream :
+  lex_stream [MIdentifierSpecific; MPathString; MVariableString; MNone; MPathString; MNone; MNone] ex_manifest =
+  Ok [mkTok TkIdentifier 0 4 1 0; mkTok TkString 5 7 1 5; mkTok TkString 13 3 2 4; mkTok TkNewline 16 2 2 7;
+      mkTok TkString 18 5 3 0; mkTok TkIdentifier 24 1 3 6; mkTok TkColon 25 1 3 7].
+Proof. vm_compute. reflexivity. Qed.
+
+(* lex_progress / lex_call_facts / lex_eof_iff_at_end: the initial cursor is a cursor, and both alternatives occur *)
+Example ex_progress_token : exists t s', at_data ex_manifest (init ex_manifest) /\
+  lex MNone (init ex_manifest) = Ok (t, s') /\ tk_kind t = TkKWRule /\ (l_pos (init ex_manifest) < l_pos s')%nat.
+Proof. eexists. eexists. split; [apply at_data_init|]. split; [vm_compute; reflexivity|]. split; [reflexivity | cbn; lia]. Qed.
+
+Example ex_progress_eof : exists t s', at_data [32; 36; 10] (mkL [] 3 2 0) /\
+  lex MNone (mkL [] 3 2 0) = Ok (t, s') /\ tk_kind t = TkEndOfFile /\ tk_start t = length [32; 36; 10].
+Proof.
+  eexists. eexists. split; [exists [32; 36; 10]; split; reflexivity|]. split; [vm_compute; reflexivity|]. split; reflexivity.
+Qed.
+
+(* lex_tokens_ordered / lex_first_gap: a gap that is not empty ("$\n  " between cc and x) *)
+Example ex_gap : gap_units (slice ex_manifest 7 11).
+Proof. vm_compute. apply gu_lf. apply gu_space; [reflexivity|]. apply gu_space; [reflexivity|]. apply gu_nil. Qed.
+
+(* lex_all_tiles *)
+Example ex_tiles : forall toks, lex_all MPathString ex_manifest = Ok toks -> rebuild ex_manifest 0 toks = ex_manifest.
+Proof. intros toks E. rewrite ex_lex_all_path in E. inversion E; subst. vm_compute. reflexivity. Qed.
+
+(* lex_high_bytes_ordinary: the byte 0xFF at offset 15 *)
+Example ex_high_byte : nth_error ex_manifest 15 = Some 255 /\ 128 <= 255 /\
+  lex MNone (mkL [255; 13; 10] 15 2 6) = Ok (mkTok TkUnknown 15 1 2 6, mkL [13; 10] 16 2 7) /\
+  exists s', lex MPathString (mkL [255; 13; 10] 15 2 6) = Ok (mkTok TkString 15 1 2 6, s').
+Proof. split; [reflexivity|]. split; [lia|]. split; [vm_compute; reflexivity|]. eexists. vm_compute. reflexivity. Qed.
+
+(* lex_keywords_whole: "subninja" is the keyword, "subninj" / "subninjas" / "xsubninja" are identifiers, and in
+   IdentifierSpecific mode "subninja" is an identifier *)
+Example ex_keywords :
+  lex_all MNone [115;117;98;110;105;110;106;97] = Ok [mkTok TkKWSubninja 0 8 1 0; mkTok TkEndOfFile 8 0 1 8] /\
+  lex_all MNone [115;117;98;110;105;110;106] = Ok [mkTok TkIdentifier 0 7 1 0; mkTok TkEndOfFile 7 0 1 7] /\
+  lex_all MNone [115;117;98;110;105;110;106;97;115] = Ok [mkTok TkIdentifier 0 9 1 0; mkTok TkEndOfFile 9 0 1 9] /\
+  lex_all MNone [120;115;117;98;110;105;110;106;97] = Ok [mkTok TkIdentifier 0 9 1 0; mkTok TkEndOfFile 9 0 1 9] /\
+  lex_all MIdentifierSpecific [115;117;98;110;105;110;106;97] = Ok [mkTok TkIdentifier 0 8 1 0; mkTok TkEndOfFile 8 0 1 8].
+Proof. repeat split; vm_compute; reflexivity. Qed.
+
+(* lex_first_token_kw_ok: the model's own identifier characters form a matching class *)
+Example ex_charclass : charclass_matches is_ident_char (filter is_ident_char all_bytes) = true /\
+  kw_entry_ok (filter is_ident_char all_bytes) (0, [114;117;108;101;58], 10, 4) = true /\
+  kw_entry_ok (filter is_ident_char all_bytes) (0, [114;117;108;101;58], 5, 4) = false.
+Proof. repeat split; vm_compute; reflexivity. Qed.
+
+Example ex_left_boundary : left_boundary ex_manifest (mkTok TkKWBuild 18 5 3 0).
+Proof. right. exists 10. split; reflexivity. Qed.
